@@ -12,7 +12,7 @@ CFG = {
         "terminating event has stopped both goroutines; the sessions' own steps are bounded by a measure; count = "
         "initial value + sessions not yet over (every exit returns exactly one unit, back to the previous value when "
         "all are over); count <= maximum for every accept-only history, surplus connections closed and never counted; "
-        "flush before local close (clean session closed => peer has read the concatenation of all accepted payloads; "
+        "flush before local close (only Sends - zero-length ones included - and Close issued, session closed => peer has read the concatenation of all accepted payloads; "
         "with a reading peer Close does end the session); peer bytes are always a prefix of the accepted bytes; nothing "
         "accepted after exit. The model is tied to the code on every run by real stcp Sessions over net.Pipe and "
         "loopback TCP behind a fault-injecting net.Conn and a real stcp.Server accept loop (maxConn 0..3): each "
@@ -30,9 +30,13 @@ CFG = {
         "run on panic, sync.Once. Pop and Write of one payload are one label (the queue length is not observable). "
         "Error kinds (error / timeout / EOF / handler error / panic) take the same branch in the code and set the same "
         "flag in the model; they are distinguished in the generator only. A panic inside OnExit is outside the "
-        "statement. Outside the statement, modelled as coded and exercised (class empty-send): Send of a zero-length "
-        "payload returns nil and then ends the session in loopSend, payloads queued behind it are dropped - the flush "
-        "theorem is therefore stated for sessions that accepted non-empty payloads only (ghost flag clean). The "
+        "statement. A zero-length payload is popped and skipped by the send loop (repair 225387c; class empty-send); the "
+        "flush theorem and the monitor's flush clause hold for all payloads, zero-length included (the accepted bytes "
+        "are the concatenation). The pre-fix loop, which ended the session on a zero-length payload and lost what was "
+        "queued behind it, is kept as the named variant sess_step_prefix / run_prefix with the witness "
+        "c16_prefix_flush_refuted, and as selftest mutant empty_payload_quits.diff. The composed machine refines the "
+        "prototype Accept.v (C16_Compose.v); the prototype Session.v is subsumed by the per-session part of "
+        "C16_Model.v (same invariant, plus faults, peer and ghost history). The "
         "harness's own Go transcription of the model and its interleaving search are not trusted: Coq replays the "
         "sequence it proposes."
     ),
@@ -40,7 +44,7 @@ CFG = {
         "one case = one scenario on real sessions (phases of back-to-back issued events, observation at quiescence after "
         "each phase); classes: one terminating event after 0..20 queued sends (8 events x pipe/TCP), every ordered pair "
         "of terminating events sequentially and racing in one burst, flush with 0..20 sends (burst / one by one / "
-        "stalled peer that later reads), blocked write then each event, zero-length payload, the manager's own read and "
+        "stalled peer that later reads), blocked write then each event, zero-length payloads between real ones, the manager's own read and "
         "write deadlines firing, accept loop with maxConn 0..3 (random arrivals, surplus, exits, re-arrivals), several "
         "sessions on one manager, random walks with bursts; non-trivial = at least one session ended (OnExit observed) "
         "or one connection was closed on accept; distinct = distinct Coq case term"
